@@ -79,19 +79,19 @@ EYFromX(x, largest) ==
   LET x2  == FSqr(WP, x)
       num == FSub(WP, FMul(WP, WA, x2), N1)
       den == FSub(WP, FMul(WP, WD, x2), N1)
-      rt  == FSqrt(WP, WNR, FDiv(WP, num, den))
-  IN  IF ~rt[1] THEN <<FALSE, N0>>
-      ELSE IF FLexLargest(WP, rt[2]) = largest THEN rt ELSE <<TRUE, FNeg(WP, rt[2])>>
+  IN  ELet(FSqrt(WP, WNR, FDiv(WP, num, den)), LAMBDA rt :
+        IF ~rt[1] THEN <<FALSE, N0>>
+        ELSE IF FLexLargest(WP, rt[2]) = largest THEN rt ELSE <<TRUE, FNeg(WP, rt[2])>>)
 
 (* untrusted compressed decoding: <<ok, point>> *)
 EDec(bs) ==
   IF Len(bs) # WCB THEN <<FALSE, EId>>
-  ELSE LET x == NFromBytesBE(bs)
-       IN  IF ~NLt(x, WP) THEN <<FALSE, EId>>
-           ELSE LET y == EYFromX(x, TRUE)
-                IN  IF ~y[1] THEN <<FALSE, EId>>
-                    ELSE IF ~ESubgroupX(x) THEN <<FALSE, EId>>
-                    ELSE <<TRUE, <<x, y[2]>>>>
+  ELSE ELet(NFromBytesBE(bs), LAMBDA x :
+         IF ~NLt(x, WP) THEN <<FALSE, EId>>
+         ELSE ELet(EYFromX(x, TRUE), LAMBDA y :
+                IF ~y[1] THEN <<FALSE, EId>>
+                ELSE IF ~ESubgroupX(x) THEN <<FALSE, EId>>
+                ELSE <<TRUE, <<x, y[2]>>>>))
 (* acceptance predicate stated without computing a root *)
 EDecAccepts(bs) ==
   /\ Len(bs) = WCB
@@ -106,13 +106,12 @@ EDecAccepts(bs) ==
 (* untrusted uncompressed decoding: both coordinates canonical, y the larger root *)
 EDecUncompressed(bs) ==
   IF Len(bs) # 2 * WCB THEN <<FALSE, EId>>
-  ELSE LET x  == NFromBytesBE(SubSeq(bs, 1, WCB))
-           yb == NFromBytesBE(SubSeq(bs, WCB + 1, 2 * WCB))
-       IN  IF ~NLt(x, WP) \/ ~NLt(yb, WP) THEN <<FALSE, EId>>
-           ELSE LET y == EYFromX(x, TRUE)
-                IN  IF ~y[1] \/ y[2] # yb THEN <<FALSE, EId>>
-                    ELSE IF ~ESubgroupX(x) THEN <<FALSE, EId>>
-                    ELSE <<TRUE, <<x, yb>>>>
+  ELSE ELet(<<NFromBytesBE(SubSeq(bs, 1, WCB)), NFromBytesBE(SubSeq(bs, WCB + 1, 2 * WCB))>>, LAMBDA xy :
+         IF ~NLt(xy[1], WP) \/ ~NLt(xy[2], WP) THEN <<FALSE, EId>>
+         ELSE ELet(EYFromX(xy[1], TRUE), LAMBDA y :
+                IF ~y[1] \/ y[2] # xy[2] THEN <<FALSE, EId>>
+                ELSE IF ~ESubgroupX(xy[1]) THEN <<FALSE, EId>>
+                ELSE <<TRUE, xy>>))
 (* trusted uncompressed decoding: coordinates reduced, nothing checked *)
 EDecUncompressedTrusted(bs) ==
   <<NMod(NFromBytesBE(SubSeq(bs, 1, WCB)), WP), NMod(NFromBytesBE(SubSeq(bs, WCB + 1, 2 * WCB)), WP)>>
